@@ -267,6 +267,13 @@ func c03Configs(c *Ctx) []c03Cfg {
 			for _, cp := range caps[:2] {
 				out = append(out, c03Cfg{listCfg{Kind: k, FIFO: fifo, Cap: cp, MaxL: cp}, "spread-later", false, false})
 			}
+			if k == "LIST" || k == "AND" {
+				// the index options are about addressing, not about room: a position given from the far end, or
+				// beyond it, removes one element at most
+				for _, cp := range caps {
+					out = append(out, c03Cfg{listCfg{Kind: k, FIFO: fifo, Cap: cp, Neg: true, Fwd: true, MaxL: cp}, "", false, false})
+				}
+			}
 			if k == "LIST" {
 				// capacities around and beyond any preallocation constant, almost full at the start
 				for _, lc := range [][2]int{{9, 7}, {33, 31}, {1023, 1021}, {1024, 1022}, {1025, 1022}, {2000, 1998}} {
